@@ -3,5 +3,6 @@ CONSTANT Part = "recv"
 CONSTANT Depth = 5
 CONSTANT AutoAccept = TRUE
 CONSTANT Pipe = 4194304
+CONSTANT Buf = 1
 INVARIANT Emit
 CHECK_DEADLOCK FALSE
